@@ -32,7 +32,6 @@ func c16Dur(rt *rapid.T, name string) *metav1.Duration {
 	return &metav1.Duration{Duration: d}
 }
 
-
 func c16Strategy(rt *rapid.T) (edsv1.ExtendedDaemonSetSpecStrategy, int) {
 	boundary := 0
 	s := edsv1.ExtendedDaemonSetSpecStrategy{}
